@@ -304,7 +304,7 @@ func (c *Chain) ProjectBank(ctx sdk.Context) M {
 			ex = append(ex, n)
 		}
 	}
-	return M{"bal": bal, "sup": sup, "vest": vest, "exists": ex, "junk": junk}
+	return M{"bal": bal, "sup": sup, "vest": vest, "exists": ex, "junk": junk, "pending": c.ProjectGovPending(ctx)}
 }
 
 func (c *Chain) ProjectGrants(ctx sdk.Context) []any {
